@@ -175,6 +175,11 @@ fn class_of(why: &str) -> String {
 }
 
 pub fn probe(ctx: &mut Ctx, f: Fmt, s: &str, family: &str) {
+    // every 400th call something fails on this thread first (every 8th of those: a caught panic inside
+    // the library, from a user-built format's predicate or a user iterator); the call that follows is checked
+    if ctx.report.evaluations % 400 == 0 {
+        something_fails_first((ctx.report.evaluations / 400) as usize);
+    }
     ctx.journal.about_to(&format!("C12|{}", f.name()), s);
     ctx.report.eval();
     ctx.report.bump(&format!("family.{}", family));
@@ -305,6 +310,12 @@ pub fn run(ctx: &mut Ctx) {
                 cases.push((f, if i % 3 == 2 { g.mutate(&base, &mut rng) } else { base }));
             }
             cases.extend(["", "(", "{A,", "<A --> B>. %1;0.9%", "$0.5$ A. :|:"].iter().map(|s| (f, s.to_string())));
+            // (long inputs of many different lengths, cheap to parse: a shared pool of input buffers that is
+            // only used above some size has to hand out, take back and drop buffers all the time)
+            for i in 0..24usize {
+                let base = g.wellformed(&mut rng, 2);
+                cases.push((f, format!("{}{}{}", " ".repeat(40 + 37 * i), base, " ".repeat(17 * (i % 5)))));
+            }
         }
         let rounds = if ctx.thorough { 60 } else { 6 };
         for f in ALL_FMT {
